@@ -36,6 +36,7 @@ def required(tier):
         "reject.nonsentence": 500,
         "grammar.cyclic": 3,
         "trees_checked": 1000,
+        "grammar.lex_corpus": 4,
     }
 
 
@@ -48,6 +49,9 @@ def run(ctx):
     mon.install()
     maxlen = 5 if ctx.tier == "quick" else 6
     try:
+        for i, (name, g) in enumerate(cfg.LEX_CORPUS):
+            if ctx.mine(i):
+                lex_grammar(ctx, mon, name, g)
         for name, g, alphabet in glrwork.grammar_stream(ctx, tiny=(ctx.tier == "thorough")):
             if not ctx.more():
                 break
@@ -58,6 +62,19 @@ def run(ctx):
     con.report(ctx)
     for k, v in mon.totals.items():
         ctx.count("gss." + k, v)
+
+
+def lex_grammar(ctx, mon, name, g):
+    """Vocabulary whose tokens have different lengths and may span layout characters."""
+    text = g.text()
+    ctx.count("grammar.lex_corpus")
+    for tables in ("LALR", "SLR"):
+        case0 = {"grammar": text, "g": g.to_json(), "tables": tables}
+        pg = pgx.grammar(text)
+        parser = pgx.glr(pg, tables=pgx.LALR if tables == "LALR" else pgx.SLR)
+        pkeys = pgx.prod_keys(pg)
+        for w in cfg.all_strings(cfg.LEX_ALPHABET, 6 if ctx.tier == "quick" else 7):
+            check_input(ctx, mon, g, pg, parser, pkeys, dict(case0, input=w), w)
 
 
 def one_grammar(ctx, mon, name, g, alphabet, maxlen):
@@ -86,7 +103,7 @@ def one_grammar(ctx, mon, name, g, alphabet, maxlen):
             continue
         pkeys = pgx.prod_keys(pg)
         for w in glrwork.inputs_for(g, alphabet, maxlen, ctx.rng, extra_long=2):
-            inp = glrwork.relayout(w, ctx.rng) if ctx.rng.random() < 0.5 else w
+            inp = glrwork.relayout(w, ctx.rng, density=0.35 if glrwork.has_overlap(g) else 1.0) if ctx.rng.random() < 0.5 else w
             check_input(ctx, mon, g, pg, parser, pkeys, dict(case0, input=inp), inp)
         if not ctx.more():
             break
